@@ -522,6 +522,17 @@ def lean_stage(res, pid, prop_modules, targets=None, extra_checker=""):
         return False, out
     a = audit(prop_modules)
     res.audit = a
+    if res.tier == "thorough":
+        # independent re-check of the compiled property modules (one module per call)
+        rej = []
+        with Lock("lake"):
+            for mod in prop_modules:
+                p = sh(["lake", "env", "leanchecker", mod], cwd=LEAN, timeout=3600)
+                if p.returncode != 0:
+                    rej.append("leanchecker rejects %s: %s" % (mod, (p.stdout + p.stderr)[-400:]))
+        res.coverage["leanchecker"] = "replayed %s" % ", ".join(prop_modules) if not rej else "FAILED"
+        res.coverage["checker_cmd"] += " && lake env leanchecker <each of %s>" % ", ".join(prop_modules)
+        a["problems"] += rej
     res.coverage["obligations"] = len(a["theorems"])
     res.coverage["discharged"] = len([t for t in a["theorems"] if t in a["axioms"]])
     res.coverage["axioms"] = sorted({x for v in a["axioms"].values() for x in v if x in ALLOWED_AXIOMS}) + \
